@@ -129,6 +129,9 @@ def handleQueue (kv : List (String × String)) (impl : String) : String × Strin
     match getN? ikv "reports", getN? ikv "lines", getN? ikv "dropped" with
     | some reports, some lines, some dropped =>
       if (lookup kv "fail").isSome then ("-", judgeFailingSink (getS ikv "closed" == "1")) else
+      -- (round 6) a run across flush ticks in which `Run` returned while the reporters were still reporting
+      if getS ikv "gaveup" == "1" then
+        ("-", s!"fail:err:Run returned {getS ikv "err"} in the middle of the run ({reports} of {g * k} reports made, {lines} lines written)") else
       if getS kv "late" == "1" then
         ("-", judgeLate kind (lateObs ikv reports lines dropped))
       else
